@@ -223,18 +223,30 @@ fn create_diagnostic(err: &SplError, text: &str) -> Diagnostic {
 
 /// Converts a string index to a `Position`.
 /// If the index is out of bounds, the last possible position is returned.
+///
+/// Lines end with `\n`, `\r\n` or `\r`, and columns count UTF-16 code units,
+/// as the LSP specification demands.
 pub fn as_position(index: usize, text: &str) -> Position {
     let mut line = 0;
     let mut character = 0;
-    for (i, c) in text.char_indices() {
-        if i == index {
+    let mut chars = text.char_indices().peekable();
+    while let Some((i, c)) = chars.next() {
+        if i >= index {
             break;
         }
-        if c == '\n' {
-            line += 1;
-            character = 0;
-        } else {
-            character += 1;
+        match c {
+            '\n' => {
+                line += 1;
+                character = 0;
+            }
+            '\r' => {
+                // `\r\n` is a single line terminator
+                if !matches!(chars.peek(), Some((_, '\n'))) {
+                    line += 1;
+                    character = 0;
+                }
+            }
+            c => character += c.len_utf16() as u32,
         }
     }
     Position { line, character }
@@ -263,16 +275,25 @@ fn as_index_range(pos_range: &PosRange, text: &str) -> TextRange {
 pub fn get_insertion_index(position: &Position, text: &str) -> usize {
     let mut line = 0;
     let mut character = 0;
-    let pos = (position.line, position.character);
-    for (i, c) in text.char_indices() {
-        if (line, character) == pos {
+    let mut chars = text.char_indices().peekable();
+    while let Some((i, c)) = chars.next() {
+        // A column beyond the end of the line denotes the end of that line.
+        if line == position.line && (character >= position.character || c == '\n' || c == '\r') {
             return i;
         }
-        if c == '\n' {
-            line += 1;
-            character = 0;
-        } else {
-            character += 1;
+        match c {
+            '\n' => {
+                line += 1;
+                character = 0;
+            }
+            '\r' => {
+                // `\r\n` is a single line terminator
+                if !matches!(chars.peek(), Some((_, '\n'))) {
+                    line += 1;
+                    character = 0;
+                }
+            }
+            c => character += c.len_utf16() as u32,
         }
     }
     text.len()
